@@ -20,10 +20,7 @@ func Run(o *hx.Opts, w *lineio.Writer) error {
 		}
 		return c10.RunIsolated("C11", o, w, jobs, 1, 60*time.Second)
 	}
-	mp, err := c10.MeasureMaxPayload()
-	if err != nil {
-		return err
-	}
+	mp := c10.MaxPayloadOrDocumented()
 	var jobs []c10.Job
 	sizes := [3]int{5, 0, 3}
 	if o.Thorough() {
